@@ -2,6 +2,7 @@ package interp
 
 import (
 	"errors"
+	"fmt"
 	"go/constant"
 	"go/token"
 	"math"
@@ -250,6 +251,43 @@ func (check typecheck) comparison(n *node) error {
 			typ = t1
 		}
 		return n.cfgErrorf("invalid operation: operator %v not defined on %s", n.action, typ.id())
+	}
+	return nil
+}
+
+// switchCases type checks the case expressions of an expression switch against its tag.
+func (check typecheck) switchCases(tag *node, clauses []*node) error {
+	seen := map[string]bool{}
+	for _, c := range clauses {
+		if len(c.child) == 0 {
+			continue
+		}
+		for _, e := range c.child[:len(c.child)-1] {
+			switch {
+			case e.typ == nil || tag.typ == nil || isInterface(tag.typ) || isInterface(e.typ):
+				// Dynamic comparison.
+				continue
+			case e.typ.untyped && !e.typ.isNil():
+				// A constant must be representable in the type of the tag.
+				if err := check.representable(e, tag.typ.TypeOf()); err != nil {
+					return err
+				}
+			case !e.typ.assignableTo(tag.typ) && !tag.typ.assignableTo(e.typ):
+				return e.cfgErrorf("invalid case in switch (mismatched types %s and %s)", e.typ.id(), tag.typ.id())
+			}
+			if !e.rval.IsValid() || e.rval.CanSet() {
+				// Not a constant.
+				continue
+			}
+			k := fmt.Sprintf("%v", e.rval)
+			if c, ok := e.rval.Interface().(constant.Value); ok {
+				k = c.ExactString()
+			}
+			if seen[k] {
+				return e.cfgErrorf("duplicate case %s in switch", k)
+			}
+			seen[k] = true
+		}
 	}
 	return nil
 }
